@@ -610,6 +610,9 @@ VARIANTS["C13"] = [
 
 # ------------------------------------------------------------------------------------------------ C14
 VARIANTS["C14"] = [
+    V("twin-onehot-int8-cumsum", "twin", WF, [("    arr_mask = np.cumsum(arr_mask, axis=1)\n", "    arr_mask = np.cumsum(arr_mask, axis=1, dtype=np.int8)\n")], (), "running count of a one-hot mask never exceeds 1"),
+    V("int8-count-of-unbounded-mask", "fire", WF, [("    indx_post = np.argmax(arr_post > 0, axis=1)\n", "    indx_post = np.argmax(np.cumsum(arr_post > 0, axis=1, dtype=np.int8) == 1, axis=1)\n")], ("D6",),
+      "first crossing found through an 8-bit running count: wraps for long windows"),
     V("clamp-gt", "fire", WF, [("    idx_over = np.where(idx_all >= arr_peak.shape[1])[0]\n", "    idx_over = np.where(idx_all > arr_peak.shape[1])[0]\n")], ("D1",), "regression of F9"),
     V("clamp-to-length", "fire", WF, [("        idx_all[idx_over] = arr_peak.shape[1] - 1  # Take", "        idx_all[idx_over] = arr_peak.shape[1]  # Take")], ("D1",), ""),
     V("argmax-no-axis", "fire", WF, [("    indx_trace = np.argmax(max_vals, axis=1)\n", "    indx_trace = np.argmax(max_vals)\n")], ("D2",), "identical for a batch of one waveform"),
